@@ -303,12 +303,12 @@ func ruleBoundedCopy(p *Prog, r *Report) {
 						return Val{}, false
 					}
 					o2 := in.RunOuter(fn, defaultArgs(fn), idxInstr.Block(), outer)
-					if o2.Frame.Reached(st) {
-						if c >= N {
-							over = append(over, strconv.FormatInt(c, 10))
-						} else {
-							reachedInside = true
-						}
+					// beyond the buffer the address computation itself is the failing
+					// step (the evaluator ends the path there, as the run-time check does)
+					if c >= N && (o2.Frame.Reached(ia) || o2.Frame.Reached(st)) {
+						over = append(over, strconv.FormatInt(c, 10))
+					} else if c < N && o2.Frame.Reached(st) {
+						reachedInside = true
 					}
 				}
 				switch {
